@@ -193,15 +193,24 @@ func (r *Record) LessByName(other *Record) bool {
 // LessByCoordinate returns true if the receiver sorts by coordinate before other
 // according to the SAM specification.
 func (r *Record) LessByCoordinate(other *Record) bool {
-	rRefName := r.Ref.Name()
-	oRefName := other.Ref.Name()
+	// The SAM specification orders references as they are listed
+	// in the header, with unplaced records last.
 	switch {
-	case oRefName == "*":
-		return true
-	case rRefName == "*":
+	case other.Ref == nil:
+		return r.Ref != nil
+	case r.Ref == nil:
 		return false
 	}
-	return (rRefName < oRefName) || (rRefName == oRefName && r.Pos < other.Pos)
+	rID := r.Ref.ID()
+	oID := other.Ref.ID()
+	if rID < 0 || oID < 0 {
+		// References that are not held by a Header have no
+		// order other than their names.
+		rName := r.Ref.Name()
+		oName := other.Ref.Name()
+		return rName < oName || (rName == oName && r.Pos < other.Pos)
+	}
+	return rID < oID || (rID == oID && r.Pos < other.Pos)
 }
 
 // String returns a string representation of the Record.
